@@ -144,7 +144,7 @@ PROPS["C13"] = _e1({
             "accessors, reciprocal (once and twice, bit-exact), rate*q and q*rate (bit-identical to each other, judged "
             "against the exact value term x (q / per)), q/rate (exact value per x (q / term)), reciprocal()*q (same exact "
             "value), and the inverse path (q/rate)*rate back to q's magnitude within the composed bound",
-    "floors": {"quick": {"type_pairs": 56, "value_checked": 3000000, "operand_orders_agree": 1000000,
+    "floors": {"quick": {"type_pairs": 56, "value_checked": 3000000, "operand_orders_agree": 500000,
                          "inverse_paths": 800000}},
 })
 
